@@ -45,6 +45,8 @@ def gen_case(rng):
         m = rng.randint(0, 6)
         case["calls"] = calls[:1] + [{"n": m, "dur": pc.gen_durations(rng, m), "phantom": True}]
         case["rival"] = {"delay": rng.choice([0.0, 0.0, 0.0, 0.0001, 0.003, 0.05])}
+        if rng.random() < 0.5:
+            case["rival"]["spin"] = True       # the second thread keeps calling until it is accepted: the earliest possible moment
         case["managed"] = False
         case["drain"] = 10.0 + 2 * sum(case["calls"][1]["dur"])
     case["strategy"] = ds.draw_strategy(rng)
@@ -101,12 +103,10 @@ def rival_oracle(w, s):
     both_accepted = not refused(rec["outcome"]) and not refused(r)
     for who, c, o, vals in (("main", 0, rec["outcome"], rec["values"]), ("rival", 1, r, r.get("values"))):
         if both_accepted and o["kind"] != "ok":
-            # the two runs did not overlap as far as the guard is concerned: one of them started while the other was being
-            # finalised (the running flag is reset before the backend is terminated) and may lose its pool.  Two caller
-            # threads on one object are not part of the statement beyond "one of two overlapping calls is refused": when
-            # both were accepted, a call that returns is judged on its values, a call that raises is not judged
-            outs.append("not_judged:" + o["kind"])
-            continue
+            # both accepted: the second one started after the first run was over, backend terminated included (F51: the
+            # running flag used to be reset before that, and the late call lost the pool it had just set up)
+            return {"class": "accepted_call_failed", "detail": "two threads called one Parallel object, both calls were accepted, the %s call ended as %s" % (
+                who, {k_: o.get(k_) for k_ in ("kind", "type", "args")}), "sig": {"what": "accepted_call_failed", "concurrent_callers": True, "how": o["kind"]}}
         if o["kind"] == "ok":
             outs.append("ok")
             want = [pc.value_of(c, i) for i in range(case["calls"][c]["n"])]
@@ -146,11 +146,22 @@ def run_case(case):
                         s_.sleep(d)
                     else:
                         s_.yp("rival")
-                    try:
-                        out = p(pc.InputIter(w_, 1))
-                        w_.rival = {"kind": "ok", "values": list(out)}
-                    except BaseException as e:  # noqa
-                        w_.rival = pc.outcome_of_exception(e)
+                    extra = 0
+                    while True:
+                        try:
+                            out = p(pc.InputIter(w_, 1))
+                            w_.rival = {"kind": "ok", "values": list(out)}
+                        except BaseException as e:  # noqa
+                            o_ = pc.outcome_of_exception(e)
+                            if case["rival"].get("spin") and o_.get("type") == "RuntimeError" and "already running" in str(o_.get("args")) and extra < 3:
+                                if w_.calls and w_.calls[0]["outcome"] is not None:
+                                    extra += 1
+                                w_.probes["rival_refused_then_retried"] += 1
+                                # (coarse while the first call still has tasks to run, fine around its end)
+                                s_.sleep(0.0007 if len(w_.exec[0]) >= case["calls"][0]["n"] else 0.05)
+                                continue
+                            w_.rival = o_
+                        break
                 s_.spawn("rival", rival, role="rival")
             w.call_hooks = [hook]
 
